@@ -106,6 +106,55 @@ def _preimport():
             pass
 
 
+def _interpolator_stub(coeff, nf, variation):
+    name = f"heavyN3LO_{coeff}_nf{int(nf)}_var{int(variation)}"
+
+    def call(xi, eta):
+        if not _symbolic(xi, eta):
+            raise real.NotEncodable("tabulated coefficient called on floats under stubs")
+        env = isinstance(xi, Env) or isinstance(eta, Env)
+        a = [v.v if isinstance(v, Env) else v for v in (xi, eta)]
+        if any(isinstance(v, Dual) for v in a):
+            raise real.NotEncodable("derivative through tabulated coefficient")
+        r = real.cur().atom_n(name, a)
+        return Env.lift(r) if env else r
+
+    return call
+
+
+class _Vec:
+    def __init__(self, vals):
+        self._v = vals
+
+    def ToVect(self):
+        return self._v
+
+
+class _AdaniObj:
+    """adani.HighScaleSplitLogs instance: LL/NLL/N2LL(z, nf) numbers, N3LL(z, nf).ToVect() three numbers."""
+
+    def __init__(self, name):
+        self._name = name
+
+    def __getattr__(self, fn):
+        if fn.startswith("__"):
+            raise AttributeError(fn)
+        name = self._name
+
+        def call(z, nf):
+            if isinstance(z, Dual):
+                raise real.NotEncodable("derivative through adani")
+            env = isinstance(z, Env)
+            zz = z.v if env else z
+            if fn == "N3LL":
+                vals = [real.cur().atom_n(f"{name}_{fn}_{i}_nf{int(nf)}", [zz]) for i in range(3)]
+                return _Vec([Env.lift(v) if env else v for v in vals])
+            r = real.cur().atom_n(f"{name}_{fn}_nf{int(nf)}", [zz])
+            return Env.lift(r) if env else r
+
+        return call
+
+
 def _all_cf_modules():
     pref = "yadism.coefficient_functions"
     return [m for n, m in list(sys.modules.items()) if n.startswith(pref) and isinstance(m, types.ModuleType)]
@@ -151,6 +200,14 @@ def cf_stubs(np_shim=None, external=True):
                 for ln in libs:
                     if ln in d and isinstance(d[ln], types.ModuleType):
                         setm(m, ln, libs[ln])
+                # tabulated N3LO heavy coefficients (RectBivariateSpline) -> uninterpreted functions of (xi, eta)
+                if "interpolator" in d and callable(d["interpolator"]) and getattr(d["interpolator"], "__module__", "").endswith("heavy.n3lo"):
+                    setm(m, "interpolator", _interpolator_stub)
+                # adani objects held as class attributes
+                for cname, cls in list(d.items()):
+                    if isinstance(cls, type) and "hs3" in vars(cls) and cls.__module__ == m.__name__:
+                        saved.append((cls, "hs3", vars(cls)["hs3"]))
+                        setattr(cls, "hs3", _AdaniObj(f"adani_hs3_{m.__name__.split('.')[-1]}_{cname}"))
         yield libs
     finally:
         for mod, attr, old in reversed(saved):
